@@ -328,44 +328,64 @@ def rule_free(ctx: Ctx) -> List[Ob]:
     f = ctx.repo.func("subspacemin.get_freev")
     obs: List[Ob] = []
     pt = f.params[0]
-    fv = None
-    for s in f.node.body:
-        if isinstance(s, (ast.Assign, ast.AnnAssign)) and getattr(s, "value", None) is not None:
-            t = s.targets[0] if isinstance(s, ast.Assign) else s.target
-            if isinstance(t, ast.Name) and t.id == "free_vars":
-                fv = s
-    need(fv is not None, "FREE: free_vars definition not found")
-    # peel .nonzero()[0] / np.flatnonzero / np.where(...)[0]
-    e = fv.value
-    if isinstance(e, ast.Subscript):
-        e = e.value
-    if isinstance(e, ast.Call) and isinstance(e.func, ast.Attribute) and e.func.attr == "nonzero":
-        e = e.func.value
-    elif isinstance(e, ast.Call) and dotted(e.func) in ("np.flatnonzero", "np.nonzero", "np.where") and e.args:
-        e = e.args[0]
-    conj: List[ast.expr] = []
-    if isinstance(e, ast.BinOp) and isinstance(e.op, ast.BitAnd):
-        conj = [e.left, e.right]
-    elif isinstance(e, ast.Call) and dotted(e.func) == "np.logical_and" and len(e.args) == 2:
-        conj = list(e.args)
-    sides = set()
-    for c in conj:
-        if isinstance(c, ast.Compare) and len(c.ops) == 1:
-            l, r, op = src(c.left), src(c.comparators[0]), type(c.ops[0])
-            if op is ast.NotEq and {l, r} in ({pt, "ub"}, {pt, "lb"}):
-                sides.add("ub" if "ub" in (l, r) else "lb")
-            elif (op is ast.Lt and (l, r) == (pt, "ub")) or (op is ast.Gt and (l, r) == ("ub", pt)):
-                sides.add("ub")
-            elif (op is ast.Gt and (l, r) == (pt, "lb")) or (op is ast.Lt and (l, r) == ("lb", pt)):
-                sides.add("lb")
-        if isinstance(c, ast.Compare) and len(c.ops) == 2 and all(isinstance(o, ast.Lt) for o in c.ops) and \
-                [src(c.left)] + [src(x) for x in c.comparators] == ["lb", pt, "ub"]:
-            sides |= {"lb", "ub"}
-    ok = sides == {"lb", "ub"} and len(conj) == 2
-    obs.append(ob("FREE", "free mask tests both bounds, conjunctively", f, fv, ok,
-                  f"mask `{short(e, 70)}` covers sides {sorted(sides)}" + ("" if ok else
-                  ": a variable resting on the untested bound is treated as free; the truncation ratio is then 0 and the solver stalls at the Cauchy point"),
-                  construct=f"free_vars mask: {short(e, 70)}"))
+    cfg = ctx.cfg(f)
+    rd = ctx.rd(f)
+    rets = [n for n in cfg.nodes if n.kind == "stmt" and isinstance(n.ast, ast.Return) and isinstance(n.ast.value, ast.Tuple)]
+    need(len(rets) >= 1, "FREE: get_freev does not return a tuple")
+    fv_name = src(rets[-1].ast.value.elts[0])
+
+    def resolve(n, e, depth=0):
+        """all mask expressions a free-set expression may stand for (None = not a mask of the point)"""
+        if depth > 6:
+            return [None]
+        if isinstance(e, ast.Subscript):
+            e = e.value
+        if isinstance(e, ast.Call) and isinstance(e.func, ast.Attribute) and e.func.attr == "nonzero":
+            e = e.func.value
+        elif isinstance(e, ast.Call) and dotted(e.func) in ("np.flatnonzero", "np.nonzero", "np.where") and len(e.args) == 1:
+            e = e.args[0]
+        if isinstance(e, ast.Name):
+            out = []
+            for d, v, how in rd.value_exprs(n, e.id):
+                out += [None] if v is None or how != "bind" else resolve(d, v, depth + 1)
+            return out
+        return [e]
+
+    def sides_of(e):
+        conj = []
+        if isinstance(e, ast.BinOp) and isinstance(e.op, ast.BitAnd):
+            conj = [e.left, e.right]
+        elif isinstance(e, ast.Call) and dotted(e.func) == "np.logical_and" and len(e.args) == 2:
+            conj = list(e.args)
+        sides = set()
+        for c in conj:
+            if isinstance(c, ast.Compare) and len(c.ops) == 1:
+                l, r, op = src(c.left), src(c.comparators[0]), type(c.ops[0])
+                if op is ast.NotEq and {l, r} in ({pt, "ub"}, {pt, "lb"}):
+                    sides.add("ub" if "ub" in (l, r) else "lb")
+                elif (op is ast.Lt and (l, r) == (pt, "ub")) or (op is ast.Gt and (l, r) == ("ub", pt)):
+                    sides.add("ub")
+                elif (op is ast.Gt and (l, r) == (pt, "lb")) or (op is ast.Lt and (l, r) == ("lb", pt)):
+                    sides.add("lb")
+            if isinstance(c, ast.Compare) and len(c.ops) == 2 and all(isinstance(o, ast.Lt) for o in c.ops) and \
+                    [src(c.left)] + [src(x) for x in c.comparators] == ["lb", pt, "ub"]:
+                sides |= {"lb", "ub"}
+        return sides, len(conj)
+    masks = resolve(rets[-1], rets[-1].ast.value.elts[0])
+    need(len(masks) >= 1, "FREE: no definition of the returned free set")
+    for e in masks:
+        if e is None:
+            obs.append(ob("FREE", "free mask tests both bounds, conjunctively", f, rets[-1].ast, False,
+                          f"on some path the returned free set `{fv_name}` is not computed from the current Cauchy point "
+                          f"(a parameter or an opaque value reaches the return): the partition can be stale",
+                          construct=f"free set returned by get_freev: {fv_name}"))
+            continue
+        sides, nconj = sides_of(e)
+        ok = sides == {"lb", "ub"} and nconj == 2
+        obs.append(ob("FREE", "free mask tests both bounds, conjunctively", f, e, ok,
+                      f"mask `{short(e, 70)}` covers sides {sorted(sides)}" + ("" if ok else
+                      ": a variable resting on the untested bound is treated as free; the truncation ratio is then 0 and the solver stalls at the Cauchy point"),
+                      construct=f"free_vars mask: {short(e, 70)}"))
     av = None
     for s in f.node.body:
         if isinstance(s, (ast.Assign, ast.AnnAssign)) and getattr(s, "value", None) is not None:
